@@ -61,11 +61,22 @@ Tpl(c) == CASE c.h = "element"   -> LET skip == c.i - 1 IN [ret |-> skip + 1, re
                      cont |-> IF contFirst THEN first ELSE second, elem |-> IF contFirst THEN second ELSE first]
             [] OTHER -> [ret |-> 0, reads |-> {}, cont |-> 0, elem |-> 0]
 
+\* Forwarding.  The caller hands each argument over as an lvalue ("lv"), as an rvalue ("rv") or as an rvalue of a move-only
+\* type ("mo").  A helper that READS an argument to build something from it (construct<T, I>) hands it on in the caller's
+\* category: T's constructor sees an rvalue (1: it may move from the caller's object) exactly when the caller gave one,
+\* an lvalue (0: the caller's object is copied from and left intact) otherwise.  Arguments behind ignore<> are not touched.
+Categories == {"lv", "rv", "mo"}
+ReachesAsRvalue(cat) == IF cat = "lv" THEN 0 ELSE 1
+Reach(c) == IF c.h = "construct" THEN [lv |-> ReachesAsRvalue("lv"), rv |-> ReachesAsRvalue("rv"), mo |-> ReachesAsRvalue("mo")]
+            ELSE [lv |-> 0, rv |-> 0, mo |-> 0]
+\* (a helper that forwards unconditionally as an rvalue - std::move for std::forward - would be ReachesAsRvalue == 1)
+ForwardingKeepsLvaluesIntact == \A cat \in Categories : (cat = "lv") => ReachesAsRvalue(cat) = 0
+
 VARIABLE hc
 Init == hc \in Cases
 Next == UNCHANGED hc
 Spec == Init /\ [][Next]_hc
 
 TemplateMatchesDoc == Tpl(hc) = Doc(hc)
-CaseReported == PrintT(<<"HCASE", ToJson([h |-> hc.h, n |-> hc.n, i |-> hc.i, j |-> hc.j, ret |-> Doc(hc).ret, cont |-> Doc(hc).cont, elem |-> Doc(hc).elem, built |-> Built(hc)])>>)
+CaseReported == PrintT(<<"HCASE", ToJson([h |-> hc.h, n |-> hc.n, i |-> hc.i, j |-> hc.j, ret |-> Doc(hc).ret, cont |-> Doc(hc).cont, elem |-> Doc(hc).elem, built |-> Built(hc), reach |-> Reach(hc)])>>)
 =============================================================================
